@@ -8,9 +8,9 @@ C06: cost-annotated models of the mechanisms that keep parsing and rendering lin
                    reached the end of the input, an opener of a length that does not occur ahead is
                    rejected in one step" - and tied to the positional implementation by step-count
                    equality in the correspondence stage.
-  * `btStepsNoMemo` the same loop without the flag (what the `$`..`$` scanner does today).
-  * `cdSteps`      `scan_to_closing_code_dollar` driven from every opener of a text in which no
-                   opener has a closer: no memo, every opener scans to the end.
+  * `btStepsNoMemo` the same loop without the flag (what the `$`..`$` scanners did before /repo commit 657287d).
+  * `dlLoop`       the dollar scanners with their memos (as the code is since /repo commits 657287d and
+                   b4925f3; `fix = false`: before), `cdStepsOld`: the memo-less abstraction.
   * `emLoop`       `process_emphasis` over an abstract delimiter stack with `openers_bottom`, as it is
                    (`fix = true`, 17 slots) and as it was before /repo commit 9704a60 (`fix = false`, 12 slots),
                    counting opener-search steps.
@@ -115,17 +115,22 @@ def distinctRuns : Nat → List Run
   | 0 => []
   | n + 1 => ⟨1, n + 1⟩ :: distinctRuns n
 
-/-! ## `scan_to_closing_code_dollar` (no memo) -/
+/-! ## The dollar scanners (`scan_to_closing_code_dollar`, `scan_to_closing_dollar`)
 
-/-- Steps of the code-dollar scanner summed over the openers of a text in which no opener has a closer:
-    `pieces` = for each `` $` `` opener that the inline loop executes, the number of bytes that follow its
-    `$` up to the `$` of the next executed opener (for the last one: up to the end of the text). Every opener
-    scans everything that is left after its `` $` ``: 1 per byte + 1 for the iteration that hits the end,
-    which is the number of bytes after its `$`. (K showed the first version of this model, with one more
-    step per opener, to be off by one.) -/
-def cdSteps : List Nat → Nat
+Since /repo commits 657287d and b4925f3 both have a memo: `no_code_dollar_closer` (set by a scan that runs to
+the end of the input) and `no_dollar_closer_before[len]` (the position at which the last `$` / `$$` scan failed:
+the end of the input, or the `$` that the space / digit rule refused); an opener that the memo covers returns at
+once, before the first counted step. `cdStepsOld` is the memo-less scanner as it was before those commits, kept
+for the historical quadratic theorems. -/
+
+/-- The code-dollar scanner **before /repo commit 657287d** (no memo), summed over the openers of a text in
+    which no opener has a closer: `pieces` = for each `` $` `` opener that the inline loop executes, the number
+    of bytes that follow its `$` up to the `$` of the next executed opener (for the last one: up to the end of
+    the text). Every opener scanned everything that was left after its `` $` ``: 1 per byte + 1 for the
+    iteration that hits the end, which is the number of bytes after its `$`. -/
+def cdStepsOld : List Nat → Nat
   | [] => 0
-  | p :: rest => (p + rest.sum + rest.length) + cdSteps rest
+  | p :: rest => (p + rest.sum + rest.length) + cdStepsOld rest
 
 /-- The pieces of a text of `len` bytes whose executed openers have their `$` at the given positions. -/
 def cdPieces (len : Nat) : List Nat → List Nat
@@ -164,23 +169,80 @@ def runLen (c : UInt8) : Bytes → Nat
   | [] => 0
   | b :: r => if b = c then runLen c r + 1 else 0
 
-/-- One executed `` $` `` opener: position of its `$`, steps of its scan, whether the scan ran to the end
-    of the text (no `` `$ `` ahead), whether a math span was made (a closer right after the opener is too
-    close: found, but no span). -/
+/-- Does the text start with a byte satisfying `p`? (`peek_char().map_or(false, p)`) -/
+def headIs (p : UInt8 → Bool) : Bytes → Bool
+  | c :: _ => p c
+  | [] => false
+
+/-- Outcome of one `scan_to_closing_dollar` call that got as far as its loop. -/
+inductive MdRes where
+  | ranOut                 -- reached the end of the input (sets `no_dollar_closer[len]`)
+  | rejected               -- `$`: space before the closing `$`, or a digit after it: `None`, no flag
+  | found (consumed : Nat) -- bytes consumed up to and including the closing run
+  deriving DecidableEq, Repr
+
+def MdRes.shift : MdRes → MdRes
+  | .found c => .found (c + 1)
+  | r => r
+
+/-- The loop of `scan_to_closing_dollar(n)` (`n` = 1 or 2) at byte level; `prev` = the byte before the current
+    position. 1 step per byte passed up to the deciding `$` + 1 for the iteration that hits the end. For `$`
+    a `$` after a backslash is skipped, a `$` after a space or before a digit ends the scan without a result;
+    for `$$` a single `$` is passed over. -/
+def mdScan (n : Nat) : UInt8 → Bytes → Nat × MdRes
+  | _, [] => (1, .ranOut)
+  | prev, b :: r =>
+    if b = 0x24 then
+      if n = 1 then
+        if isSpace prev then (1, .rejected)
+        else if prev = 0x5C then
+          let s := mdScan n b r
+          (s.1 + 1, s.2.shift)
+        else if headIs isAsciiDigit r then (1, .rejected)
+        else (1, .found 1)
+      else if r.head? = some 0x24 then (1, .found 2)
+      else
+        let s := mdScan n b r
+        (s.1 + 1, s.2.shift)
+    else
+      let s := mdScan n b r
+      (s.1 + 1, s.2.shift)
+
+/-- One executed dollar opener (a memo hit executes nothing and is not an event): position of its first `$`,
+    steps of its scan, whether the scan ran to the end of the text, whether a math span was made, whether the
+    scan was ended by the space / digit rule (`$` only), whether it was a `` $` `` opener. -/
 structure DlEvent where
   dpos : Nat
   cost : Nat
   ranOut : Bool
   closed : Bool
+  rejected : Bool
+  code : Bool
   deriving Repr
 
-/-- The inline loop on one-paragraph texts over letters, `$`, backtick and backslash with `math_code` on and
-    `math_dollars` off (`handle_dollars`, `handle_backticks` with its positional memo, `handle_backslash`):
-    the `` $` `` openers it executes. A failed opener resumes at the backtick after the `$` (which then
-    opens a code span if it can); a math span needs `endpos - startpos >= 5`. Fuel: one unit per dispatch. -/
-def dlLoop (inp : Bytes) : Nat → Nat → (Nat → Nat) → Bool → List DlEvent
-  | 0, _, _, _ => []
-  | fuel + 1, pos, memo, scanned =>
+/-- `Flags::no_code_dollar_closer`, `no_dollar_closer_before[1]`, `no_dollar_closer_before[2]` (positions:
+    a `$` / `$$` scan that would start before that position returns at once). -/
+structure DlFlags where
+  ncd : Bool := false
+  nd1 : Nat := 0
+  nd2 : Nat := 0
+  deriving Repr
+
+/-- A `$` / `$$` scan failed at byte `q` (the `$` that the space / digit rule refused, or the end of the input):
+    `no_dollar_closer_before[d] = q`. The scan started at `p` and took `c` steps: `q = p + c - 1`. -/
+def failAt (fix : Bool) (d q : Nat) (fl : DlFlags) : DlFlags :=
+  if fix then (if d = 1 then { fl with nd1 := q } else { fl with nd2 := q }) else fl
+
+/-- The inline loop on one-paragraph texts over letters, digits, spaces, `$`, backtick and backslash
+    (`handle_dollars`, `handle_backticks` with its positional memo, `handle_backslash`) with `math_code = mc`,
+    `math_dollars = md`: the dollar openers whose scan it executes. `fix = true`: the code as it is since /repo
+    commits 657287d and b4925f3 (a `` $` `` scan that runs to the end sets `no_code_dollar_closer`; every failed
+    `$` / `$$` scan records where it failed, and a later opener whose scan would start before that position
+    costs nothing); `fix = false`: before those commits (no memo). A failed `` $` `` opener resumes at the backtick after the
+    `$`; a math span needs `endpos - startpos >= 2 * fence + 1`. Fuel: one unit per dispatch. -/
+def dlLoop (fix mc md : Bool) (inp : Bytes) : Nat → Nat → (Nat → Nat) → Bool → DlFlags → List DlEvent
+  | 0, _, _, _, _ => []
+  | fuel + 1, pos, memo, scanned, fl =>
     match inp.drop pos with
     | [] => []
     | b :: r =>
@@ -189,34 +251,58 @@ def dlLoop (inp : Bytes) : Nat → Nat → (Nat → Nat) → Bool → List DlEve
         match r with
         | c :: _ =>
           if (0x21 ≤ c ∧ c ≤ 0x2F) ∨ (0x3A ≤ c ∧ c ≤ 0x40) ∨ (0x5B ≤ c ∧ c ≤ 0x60) ∨ (0x7B ≤ c ∧ c ≤ 0x7E)
-          then dlLoop inp fuel (pos + 2) memo scanned else dlLoop inp fuel (pos + 1) memo scanned
-        | [] => dlLoop inp fuel (pos + 1) memo scanned
+          then dlLoop fix mc md inp fuel (pos + 2) memo scanned fl else dlLoop fix mc md inp fuel (pos + 1) memo scanned fl
+        | [] => dlLoop fix mc md inp fuel (pos + 1) memo scanned fl
       else if b = 0x60 then
         let L := runLen 0x60 r + 1
         let p := pos + L
-        if MAXBACKTICKS < L then dlLoop inp fuel p memo scanned
-        else if scanned && decide (memo L ≤ p) then dlLoop inp fuel p memo scanned
+        if MAXBACKTICKS < L then dlLoop fix mc md inp fuel p memo scanned fl
+        else if scanned && decide (memo L ≤ p) then dlLoop fix mc md inp fuel p memo scanned fl
         else
           let s := btScanB L memo p 0 (inp.drop p)
           match s.1 with
-          | some e => dlLoop inp fuel e s.2 scanned
-          | none => dlLoop inp fuel p s.2 true
+          | some e => dlLoop fix mc md inp fuel e s.2 scanned fl
+          | none => dlLoop fix mc md inp fuel p s.2 true fl
       else if b = 0x24 then
         let d := runLen 0x24 r + 1
-        if d = 1 ∧ r.head? = some 0x60 then
-          let s := cdScan 0x60 (r.drop 1)
-          match s.2 with
-          | some c =>
-            if 3 ≤ c then ⟨pos, s.1, false, true⟩ :: dlLoop inp fuel (pos + 2 + c) memo scanned
-            else ⟨pos, s.1, false, false⟩ :: dlLoop inp fuel (pos + 1) memo scanned
-          | none => ⟨pos, s.1, true, false⟩ :: dlLoop inp fuel (pos + 1) memo scanned
-        else dlLoop inp fuel (pos + d) memo scanned
-      else dlLoop inp fuel (pos + 1) memo scanned
+        if d = 1 ∧ mc = true ∧ r.head? = some 0x60 then
+          if fl.ncd then dlLoop fix mc md inp fuel (pos + 1) memo scanned fl
+          else
+            let s := cdScan 0x60 (r.drop 1)
+            match s.2 with
+            | some c =>
+              if 3 ≤ c then ⟨pos, s.1, false, true, false, true⟩ :: dlLoop fix mc md inp fuel (pos + 2 + c) memo scanned fl
+              else ⟨pos, s.1, false, false, false, true⟩ :: dlLoop fix mc md inp fuel (pos + 1) memo scanned fl
+            | none => ⟨pos, s.1, true, false, false, true⟩ :: dlLoop fix mc md inp fuel (pos + 1) memo scanned { fl with ncd := fix }
+        else if md = true ∧ d ≤ 2 then
+          let rest := r.drop (d - 1)
+          if d = 1 ∧ headIs isSpace rest = true then
+            dlLoop fix mc md inp fuel (pos + d) memo scanned fl
+          else if pos + d < (if d = 1 then fl.nd1 else fl.nd2) then dlLoop fix mc md inp fuel (pos + d) memo scanned fl
+          else
+            let s := mdScan d 0x24 rest
+            match s.2 with
+            | .found c =>
+              if d + 1 ≤ c then ⟨pos, s.1, false, true, false, false⟩ :: dlLoop fix mc md inp fuel (pos + d + c) memo scanned fl
+              else ⟨pos, s.1, false, false, false, false⟩ :: dlLoop fix mc md inp fuel (pos + d) memo scanned fl
+            | .rejected =>
+              ⟨pos, s.1, false, false, true, false⟩ :: dlLoop fix mc md inp fuel (pos + d) memo scanned (failAt fix d (pos + d + s.1 - 1) fl)
+            | .ranOut =>
+              ⟨pos, s.1, true, false, false, false⟩ :: dlLoop fix mc md inp fuel (pos + d) memo scanned (failAt fix d (pos + d + s.1 - 1) fl)
+        else dlLoop fix mc md inp fuel (pos + d) memo scanned fl
+      else dlLoop fix mc md inp fuel (pos + 1) memo scanned fl
 
-def dlEvents (inp : Bytes) : List DlEvent := dlLoop inp (inp.length + 1) 0 (fun _ => 0) false
+def dlCost (evs : List DlEvent) : Nat := (evs.map (·.cost)).sum
 
-/-- The `dollar-scan` counter of the text. -/
-def dlSteps (inp : Bytes) : Nat := ((dlEvents inp).map (·.cost)).sum
+/-- The code as it is. -/
+def dlEvents (mc md : Bool) (inp : Bytes) : List DlEvent := dlLoop true mc md inp (inp.length + 1) 0 (fun _ => 0) false {}
+
+/-- The `dollar-scan` counter of the text, the code as it is. -/
+def dlSteps (mc md : Bool) (inp : Bytes) : Nat := dlCost (dlEvents mc md inp)
+
+/-- Before /repo commit 657287d (no memo). -/
+def dlEventsOld (mc md : Bool) (inp : Bytes) : List DlEvent := dlLoop false mc md inp (inp.length + 1) 0 (fun _ => 0) false {}
+def dlStepsOld (mc md : Bool) (inp : Bytes) : Nat := dlCost (dlEventsOld mc md inp)
 
 /-! ## `process_emphasis` (src/parser/inlines.rs): the opener search with `openers_bottom`
 
